@@ -62,6 +62,16 @@ theorem C07_filter_serves_exactly (Hs : Hashes) (inp : BuildInput) (b : Block) (
              fun h => toFiltered_complete b (built_ids_nodup Hs inp b hb) req r h.1 h.2⟩,
    rfl, rfl, rfl, rfl⟩
 
+/-- The sequencer's gRPC service (`get_filtered_sequencer_block`) serves, for a built block and
+    any request, the block's list of rollup ids and exactly the stored entries of the requested
+    rollups that are present (a repeated request repeats the entry). -/
+theorem C07_grpc_filter_serves_exactly (Hs : Hashes) (inp : BuildInput) (b : Block) (hb : tryBuild Hs inp = .ok b)
+    (req : List Bytes) :
+    (grpcFiltered b req).allIds = b.ids ∧
+    (∀ r ∈ (grpcFiltered b req).rollups, ∃ x ∈ b.rollups, r = x.toRaw ∧ x.id ∈ req) ∧
+    (∀ x ∈ b.rollups, x.id ∈ req → x.toRaw ∈ (grpcFiltered b req).rollups) :=
+  grpcFiltered_exact Hs inp b hb req
+
 /-- Both proof verifiers — the RFC 6962 specification and astria-merkle's index walk — are hash
     chains, which is all the tamper-evidence theorems below assume. -/
 theorem C07_verifiers_sound (Hs : Hashes) :
